@@ -9,6 +9,11 @@
      (3 13 ty MX k s)     mscalar
      (3 16 ty MX)         mneg
 
+     (3 30 fop args..)    IEEE-754 oracle for the case (3 fop _ args..) at f64 (elements are bit
+                          patterns).  Floats never reach the model: the line is the constant (1);
+                          the harness checks forms, tensor/matrix agreement and the directly
+                          evaluated IEEE result.
+
    ty: 0 Rat, 1 Fp, 2 Wrapping<i64>.
    Tensor operand  X  = (shape data steps), shape = ((name len) ..), data row-major,
      steps applied left to right:  (1 names) TensorAccess   (2 names) TensorTranspose
@@ -199,6 +204,7 @@ End Run.
 
 Definition run_c03 (args : list sx) : sx :=
   match args with
+  | SZ 30%Z :: _ => SL [SZ 1%Z]
   | SZ op :: SZ ty :: rest => with_ty3 ty (fun R ops => c03_run ops op rest)
   | _ => bad_case
   end.
